@@ -84,6 +84,8 @@ def children_requests(run):
         picks.append((gen.rand_cell(rng, r), r + d))
     if not run.quick:
         picks += [(0, 9), (rng.choice(base), 11), (rng.choice(base), 12)]
+        r = rng.randint(1, 16)
+        picks.append((gen.rand_cell(rng, r), r + 13))          # 4^13 = 6.7e7 ids (512 MiB): the largest single result explored
     for c, R in picks:
         out.append((f"digest cell_to_children {c} {R}", expected_digest([c], R)))
     return out
@@ -178,6 +180,14 @@ def compact_requests(run, overlapping=True):
         if not run.quick or rng.random() < 0.5:
             rng.shuffle(cells)
         out.append((cells, [0]))          # duplicates and other spellings of member cells do not change the region: still the whole sphere
+        # H. beyond 2^21 inputs: a base cell in front of its own fill and the fill of another face at resolution 10 (2 x 1310720 + 1 ids);
+        #    thorough: a base cell + its fill at resolution 11 (5242881 ids)
+        b1, b2 = rng.sample(base, 2)
+        out.append(([b1] + _fill(b1, 10) + _fill(b2, 10), None))
+        if not run.quick:
+            b3 = rng.choice(base)
+            big = [b3] + _fill(b3, 11)
+            out.append((big, None))
         # G. 9 faces at resolution 8 (737280) + two more at resolution 7 with 30% non-canonical spellings + 320000 duplicates
         fs = rng.sample(base, 11)
         part = [x for o in fs[:9] for x in _fill(o, 8)]
@@ -194,6 +204,25 @@ def check_compact(run, items, label):
     reqs = [q for q, _ in items]
     canon = lambda q, a: ("ok " + compactgen.fmt(sorted(compactgen.parse_list(a)))) if a.startswith("ok ") else core.default_canon(q, a)
     impl, model = core.both(run, reqs, label, reorder=False, timeout=3600, canon=canon)
+    # the same calls again in one process, each directly after a REJECTED bulk call built from another item's list (an id that does not
+    # decode placed two thirds into it): what a large rejected call leaves behind (scratch buffers kept between calls) must not leak
+    if len(reqs) >= 2 and all(not d_ for d_ in run.corr_disagreements[-1:] if d_.get("suite") == label):
+        seq, back = [], []
+        for i, q in enumerate(reqs):
+            other = reqs[(i + 1) % len(reqs)].split()[1].split(",")
+            cut = (2 * len(other)) // 3
+            seq.append("compact " + ",".join(other[:cut] + [str(core.BAD_ID)] + other[cut:])); back.append(None)
+            seq.append(q); back.append(i)
+        out2 = core.run_stream(core.harness(run, "release"), seq, args=["--flush"], timeout=3600, isolate=True, mem_bytes=8 << 30, per_line_timeout=600, max_hangs=1)
+        for bi, a in zip(back, out2):
+            if bi is None:
+                continue
+            run.corr_cases += 1
+            if canon(reqs[bi], a) != canon(reqs[bi], model[bi]):
+                q = reqs[bi]
+                run.corr_disagreements.append({"request": q[:2000], "impl": a[:2000], "model": model[bi][:2000], "suite": label + " [after a rejected bulk call]"})
+                run.violation("a bulk compact answers differently directly after a rejected bulk compact (state left behind by the rejected call)",
+                              [seq[2 * bi][:200] + " ...", q[:200] + " ..."], a[:300], {"answer_of_the_model": model[bi][:300]})
     for (q, exp), a in zip(items, impl):
         run.evaluations += 1
         short = q[:120] + f" ...({q.count(',') + 1} ids)... " + q[-40:]
@@ -213,7 +242,7 @@ def check_compact(run, items, label):
     return impl, model
 
 
-def boundary_requests(run):
+def boundary_requests(run, antimeridian_cells=None):
     """requests for cell_to_boundary with an explicit subdivision count at and beyond 2^16 (rings of 3*10^5 .. 10^6 points)"""
     rng = run.rng
     out = []
@@ -222,6 +251,15 @@ def boundary_requests(run):
         r = rng.choice([29, 29, 28, rng.randint(3, 27)])
         c = gen.rand_cell(rng, r)
         out.append((f"digest cell_to_boundary {c} {rng.randint(0, 1)} {n}", (5 * n + 1, None, None)))
+    if not run.quick:
+        # spacing below 1e-13 degrees: resolution-29 cells with 1.5e6 and 2^21 segments per edge (rings of 7.5e6 / 1.05e7 points)
+        for n in (1500000, 2097152):
+            out.append((f"digest cell_to_boundary {gen.rand_cell(rng, 29)} {rng.randint(0, 1)} {n}", (5 * n + 1, None, None)))
+    if antimeridian_cells:
+        # rings of more than 2^20 points on cells that cross the antimeridian (the unwrapping must act on the ring as a whole)
+        for n in ([262144] if run.quick else [209716, 262144, 524288]):
+            c = rng.choice(antimeridian_cells)
+            out.append((f"digest cell_to_boundary {c} {rng.randint(0, 1)} {n}", (5 * n + 1, None, None)))
     return out
 
 
